@@ -546,6 +546,7 @@ func cmdSearch(seed uint64, n int) {
 		}
 		searchOne(l)
 	}
+	searchMultiAll(g, n/2)
 	fmt.Fprintf(out, "EVALS\t%d\n", evals)
 }
 
